@@ -212,9 +212,10 @@ def partition_volume(volume: float, *, max_volume: Union[int, float]) -> List[fl
     if volume < max_volume:
         return [volume]
     isteps = math.ceil(volume / max_volume)
-    step_volume = math.ceil(volume / isteps)
+    # rounding the step up to whole µL must not exceed a non-integer max_volume
+    step_volume = min(math.ceil(volume / isteps), max_volume)
     volumes: List[float] = [step_volume] * (isteps - 1)
-    volumes.append(volume - numpy.sum(volumes))
+    volumes.append(min(volume - numpy.sum(volumes), max_volume))
     return volumes
 
 
